@@ -322,6 +322,17 @@ func parseRaceReports(text string) [][2]string {
 	return out
 }
 
+// c18Balancer: query plans created and walked by several goroutines while membership events (joins, back-to-back
+// removals of hosts from the middle of the list, replaced lists) are applied -- the host list is published through an
+// atomic value and read without a lock, so its safety rests on published slices never being written again.
+func c18Balancer(ctx *Ctx, r *hv.Rng) int {
+	lb := proxycore.NewRoundRobinLoadBalancer()
+	lb.OnEvent(&proxycore.BootstrapEvent{Hosts: []*proxycore.Host{c15host(1), c15host(2), c15host(3)}})
+	n := ctx.Scale(4000, 60000)
+	c15concurrent(lb, n)
+	return n
+}
+
 func genC18(ctx *Ctx) {
 	if !raceEnabled {
 		panic("C18 must be run with the race-detector build of the harness (vh-race)")
@@ -334,7 +345,7 @@ func genC18(ctx *Ctx) {
 	families := []struct {
 		name string
 		run  func(*Ctx, *hv.Rng) int
-	}{{"sessions-use-prepare-execute", c18Sessions}, {"streams-retries-drops", c18Streams}, {"events-register-leave", c18Events}, {"topology-stops-restarts", c18Topology}}
+	}{{"sessions-use-prepare-execute", c18Sessions}, {"streams-retries-drops", c18Streams}, {"events-register-leave", c18Events}, {"topology-stops-restarts", c18Topology}, {"load-balancer-plans-against-membership-events", c18Balancer}}
 	seenBefore := map[string]bool{}
 	readReports := func() [][2]string {
 		var text strings.Builder
